@@ -10,12 +10,12 @@ pub fn def() -> PropDef {
     PropDef {
         id: "C10",
         level: "exploration",
-        rule: "hist: the C02 history generator (adds, deletes, batches, commits, aborts, rollbacks, explicit merges, delete-all, writer drop/reopen, reopen Index, explicit gc; 1..8 threads, flush-every-N, sorted or not) on SimDir / MmapDirectory (real listing) and RamDirectory (managed list only); after every commit under NoMergePolicy and at the end of every history after joining merges: garbage_collect_files, then the directory must hold exactly meta.json + the component files of the committed segments (.del only with deletes, never .store.temp) and .managed.json must list exactly the existing files; any needed file missing, search error or content difference is a violation as well. Transient survivors are re-collected up to 5 times (counted) and only persistent orphans are reported. Non-trivial = history contains rollback / abort with work / merge / delete-all / reopen before a quiescence check; distinct by hash(history,cfg).",
+        rule: "hist: the C02 history generator (adds, deletes, batches, commits, aborts, rollbacks, explicit merges, delete-all, writer drop/reopen, reopen Index, explicit gc; 1..8 threads, flush-every-N, sorted or not) on SimDir / MmapDirectory (real listing) and RamDirectory (managed list only); after every commit under NoMergePolicy and at the end of every history after joining merges: garbage_collect_files, then the directory must hold exactly meta.json + the component files of the committed segments (.del only with deletes, never .store.temp) and .managed.json must list exactly the existing files; any needed file missing, search error or content difference is a violation as well. Transient survivors are re-collected up to 5 times (counted) and only persistent orphans are reported. Non-trivial = history contains rollback / abort with work / merge / delete-all / reopen before a quiescence check; distinct by hash(history,cfg). races: SimDir gates hold (0) the segment updater inside a commit's metadata write while an explicit GC is queued behind it and an indexing worker starts a new segment, (1) an indexing worker between two file creations of a segment while explicit GC runs, (2) a merge thread between two file creations while explicit GC and a commit + implicit GC run; afterwards every commit must publish readable segments equal to the model and the directory must be quiescent. crash: see C01, with the no-orphan predicate on every deeply recovered image.",
         assumptions: vec![
             "quiescent = commit returned, merges joined (wait_merging_threads) and garbage_collect_files().wait() returned",
             "the harness never holds an IndexMeta/SegmentMeta across a collection (they pin files through the inventory)",
         ],
-        subs: vec![Box::new(HistQ), Box::new(super::c01::Crash { orphans: true })],
+        subs: vec![Box::new(HistQ), Box::new(Races), Box::new(super::c01::Crash { orphans: true })],
     }
 }
 
@@ -63,6 +63,179 @@ impl Sub for HistQ {
             cx.nontrivial(fp(c));
         }
         cx.sample(|| json!({"sub": "hist", "cfg": c.cfg, "ops": c.ops}));
+        Ok(())
+    }
+}
+
+// ------------------------------------------------------------------------------------------------
+// Gated races: garbage collection while another thread is in the middle of writing a segment.
+use serde::{Deserialize, Serialize};
+use std::time::Duration;
+
+use crate::simdir::{GateSpec, K};
+use crate::{ensure, fail};
+
+#[derive(Clone, Debug, Serialize, Deserialize)]
+pub struct RaceCase {
+    pub cfg: HistCfg,
+    pub prefix: Vec<Op>,
+    /// 0: hold the segment updater inside the metadata write of a commit, request an explicit GC (queued behind it),
+    ///    let an indexing worker start a new segment, release;
+    /// 1: hold an indexing worker at its n-th file creation, run explicit GC (and commit + implicit GC), release;
+    /// 2: hold a merge thread at its n-th file creation, run explicit GC and a commit, release
+    pub kind: u8,
+    pub nth: u8,
+    pub adds_during: Vec<AddSpec>,
+    pub suffix: Vec<Op>,
+}
+pub struct Races;
+impl Sub for Races {
+    type Case = RaceCase;
+    fn name(&self) -> &'static str {
+        "races"
+    }
+    fn cases(&self, tier: Tier) -> u32 {
+        tier.pick(600, 10000)
+    }
+    fn shards(&self, _t: Tier) -> usize {
+        12
+    }
+    fn max_shrink_iters(&self) -> u32 {
+        200
+    }
+    fn strategy(&self, _tier: Tier) -> BoxedStrategy<RaceCase> {
+        static DIRS: [DirKind; 1] = [DirKind::Sim];
+        let cfg = cfg_strategy(&DIRS).prop_map(|mut c| {
+            c.threads = c.threads.min(2);
+            c.policy = Policy::NoMerge;
+            c
+        });
+        let prefix_op = prop_oneof![8 => add_strategy().prop_map(Op::Add), 1 => any::<u16>().prop_map(Op::DelUid), 3 => Just(Op::Commit)];
+        (cfg, prop::collection::vec(prefix_op, 2..20), 0u8..3, 0u8..6, prop::collection::vec(add_strategy(), 1..5), prop::collection::vec(op_strategy(false), 0..8))
+            .prop_map(|(cfg, prefix, kind, nth, adds_during, suffix)| RaceCase { cfg, prefix, kind, nth, adds_during, suffix })
+            .boxed()
+    }
+    fn mandatory_labels(&self, _t: Tier) -> Vec<&'static str> {
+        vec!["race:gc_queued_behind_commit", "race:gc_while_worker_writes_segment", "race:gc_while_merge_writes_segment", "gate_reached", "unpublished_files_existed_during_gc"]
+    }
+    fn run(&self, c: &RaceCase, cx: &Ctx) -> CaseResult {
+        let mut env = Env::new(c.cfg.clone())?;
+        env.check_quiescence = false;
+        env.skip_dirty_delete_all = true;
+        let DirHandle::Sim(sd) = &env.dir else { return Err(Failure::new("INFRA:not_sim", "")) };
+        let sd = sd.clone();
+        sd.set_logging(true, false);
+        for op in &c.prefix {
+            env.apply(op, cx)?;
+        }
+        env.apply(&Op::Commit, cx)?;
+        let mut reached = false;
+        let mut unpublished = false;
+        // number of Create operations by indexing workers so far
+        let creates_by = |sd: &crate::simdir::SimDir, thread: &str| sd.clone_log().iter().filter(|o| o.kind == K::Create && o.thread.starts_with(thread) && !crate::simdir::is_lock(&o.path)).count();
+        match c.kind {
+            0 => {
+                cx.label("race:gc_queued_behind_commit");
+                // uncommitted work so that the commit has something to publish
+                for a in &c.adds_during {
+                    env.apply(&Op::Add(a.clone()), cx)?;
+                }
+                let gate = sd.add_gate(GateSpec { thread: "segment_updater".into(), kind: Some(K::AtomicWrite), path_suffix: "meta.json".into(), nth: 0, max_hold: Duration::from_millis(400) });
+                let payload = format!("c{}", env.commits + 1);
+                let commit_future = {
+                    let w = env.writer.as_mut().unwrap();
+                    let mut pc = w.prepare_commit().or_fail("prepare_commit_failed")?;
+                    pc.set_payload(&payload);
+                    pc.commit_future()
+                };
+                reached = sd.wait_reached(gate, Duration::from_millis(300));
+                // explicit GC is queued behind the commit on the updater thread
+                let gc_future = env.writer.as_ref().unwrap().garbage_collect_files();
+                // meanwhile an indexing worker starts a new segment
+                let before = creates_by(&sd, "thrd-tantivy-index");
+                let first_new_uid = env.next_uid;
+                for a in &c.adds_during {
+                    let uid = env.next_uid;
+                    let mut d = tantivy::TantivyDocument::new();
+                    d.add_u64(env.f.uid, uid);
+                    d.add_text(env.f.grp, format!("g{}", a.grp));
+                    let rec = DocRec { grp: a.grp, words: a.words.clone(), num: a.num as i64 };
+                    d.add_text(env.f.body, rec.body());
+                    d.add_i64(env.f.num, rec.num);
+                    env.writer.as_ref().unwrap().add_document(d).or_fail("add_failed")?;
+                    env.all_uids.push(uid);
+                    env.next_uid += 1;
+                    // these documents belong to the NEXT commit: remember them separately
+                    env.pending.insert(uid, rec);
+                }
+                // wait (bounded) until the worker has created files of the new segment
+                let t0 = std::time::Instant::now();
+                while creates_by(&sd, "thrd-tantivy-index") == before && t0.elapsed() < Duration::from_millis(200) {
+                    std::thread::yield_now();
+                }
+                unpublished = creates_by(&sd, "thrd-tantivy-index") > before;
+                sd.release(gate);
+                let o = commit_future.wait().or_fail("commit_failed")?;
+                let _ = gc_future.wait();
+                // bookkeeping of the commit that was in flight: it contains everything before `first_new_uid`
+                env.commits += 1;
+                env.last_commit_opstamp = o;
+                env.last_opstamp = None;
+                let mut committed = env.pending.clone();
+                committed.retain(|u, _| *u < first_new_uid);
+                env.committed = committed;
+                env.models.push(env.committed.clone());
+                env.dirty = true;
+                env.verify("after_commit_with_queued_gc")?;
+            }
+            1 => {
+                cx.label("race:gc_while_worker_writes_segment");
+                let gate = sd.add_gate(GateSpec { thread: "thrd-tantivy-index".into(), kind: Some(K::Create), path_suffix: String::new(), nth: c.nth as usize, max_hold: Duration::from_millis(400) });
+                for a in &c.adds_during {
+                    env.apply(&Op::Add(a.clone()), cx)?;
+                }
+                reached = sd.wait_reached(gate, Duration::from_millis(300));
+                unpublished = reached && c.nth > 0;
+                // explicit GC while the worker sits between two file creations
+                env.writer.as_ref().unwrap().garbage_collect_files().wait().or_fail("gc_failed")?;
+                sd.release(gate);
+            }
+            _ => {
+                cx.label("race:gc_while_merge_writes_segment");
+                let ids = env.index.searchable_segment_ids().or_fail("segment_ids_failed")?;
+                if ids.len() >= 2 {
+                    let gate = sd.add_gate(GateSpec { thread: "merge_thread".into(), kind: Some(K::Create), path_suffix: String::new(), nth: c.nth as usize, max_hold: Duration::from_millis(400) });
+                    let fut = env.writer.as_mut().unwrap().merge(&ids);
+                    reached = sd.wait_reached(gate, Duration::from_millis(300));
+                    unpublished = reached && c.nth > 0;
+                    env.writer.as_ref().unwrap().garbage_collect_files().wait().or_fail("gc_failed")?;
+                    for a in &c.adds_during {
+                        env.apply(&Op::Add(a.clone()), cx)?;
+                    }
+                    env.apply(&Op::Commit, cx)?;
+                    sd.release(gate);
+                    let merged: Result<(), ()> = fut.wait().map(|_| ()).map_err(|_| ());
+                    ensure!(merged.is_ok(), "merge_failed_after_gc", "a merge whose thread was paused while garbage collection ran failed (its files were collected?)");
+                    env.verify("after_merge_with_gc")?;
+                }
+            }
+        }
+        // whatever happened: the next commit must publish complete, readable segments
+        env.apply(&Op::Commit, cx)?;
+        for op in &c.suffix {
+            env.apply(op, cx)?;
+        }
+        env.check_quiescence = true;
+        env.finish(cx)?;
+        cx.label_if(reached, "gate_reached");
+        cx.label_if(unpublished, "unpublished_files_existed_during_gc");
+        if reached && unpublished {
+            cx.nontrivial(fp(c));
+        }
+        cx.sample(|| json!({"sub": "races", "kind": c.kind, "nth": c.nth, "cfg": c.cfg, "prefix": c.prefix.len(), "adds_during": c.adds_during.len(), "suffix": c.suffix.len()}));
+        if false {
+            fail!("unreachable", "");
+        }
         Ok(())
     }
 }
